@@ -6,6 +6,7 @@ import (
 	"github.com/irai/packet"
 	"gopkg.in/yaml.v2"
 	"net"
+	"net/netip"
 )
 
 // Contracts for the DHCPv4 handler.
@@ -99,4 +100,72 @@ func verif_contract_dhcp4_spoofer_Handler_loadByteArray(handler *Handler, source
 		vEnsures(vMapAll(tt, func(k string, l *Lease) bool { return spec_lease_loaded_ok(l, net1) }))
 	}
 	return net1, net2, tt, err
+}
+
+// ---------- address selection (C11: reserved and foreign addresses) ----------
+
+// spec_v4: an IPv4 address as a number (0 for anything that is not IPv4).
+func spec_v4(a netip.Addr) int {
+	if !a.Is4() {
+		return 0
+	}
+	b := a.As4()
+	return int(b[0])<<24 | int(b[1])<<16 | int(b[2])<<8 | int(b[3])
+}
+
+// spec_subnet_wf: what newSubnet establishes: an IPv4 LAN, its broadcast address, a first
+// address strictly inside, and a scan position that is unset or inside [first, broadcast].
+func spec_subnet_wf(n *dhcpSubnet) bool {
+	return n != nil && n.LAN.IsValid() && n.LAN.Addr().Is4() && n.LAN.Bits() <= 30 && n.LAN == n.LAN.Masked() &&
+		n.broadcast.Is4() && spec_v4(n.broadcast) == spec_v4(n.LAN.Addr())|(1<<(32-n.LAN.Bits())-1) &&
+		n.FirstIP.Is4() && spec_v4(n.LAN.Addr()) < spec_v4(n.FirstIP) && spec_v4(n.FirstIP) < spec_v4(n.broadcast) &&
+		(!n.nextIP.IsValid() || (n.nextIP.Is4() && spec_v4(n.FirstIP) <= spec_v4(n.nextIP) && spec_v4(n.nextIP) <= spec_v4(n.broadcast)))
+}
+
+// spec_offerable: an address the server may hand out from subnet n: inside the LAN, neither the
+// network nor the broadcast address, and not an address the session tracks (host, router and
+// every known host are tracked).
+func spec_offerable(h *Handler, n *dhcpSubnet, ip netip.Addr) bool {
+	return ip.Is4() && n.LAN.Contains(ip) && spec_v4(ip) != spec_v4(n.LAN.Addr()) && spec_v4(ip) != spec_v4(n.broadcast) &&
+		h.session.FindIP(ip) == nil
+}
+
+func spec_alloc_ok(h *Handler, lease *Lease) bool {
+	return h != nil && h.session != nil && packet.VerifSpecSessionOK(h.session) && h.table != nil &&
+		vMapAll(h.table, func(k string, l *Lease) bool { return l != nil }) &&
+		lease != nil && spec_subnet_wf(lease.subnet)
+}
+
+func verif_inv_dhcp4_spoofer_Handler_allocIPOffer_1(h *Handler, lease *Lease, ip netip.Addr) bool {
+	return spec_alloc_ok(h, lease) && lease.subnet.nextIP.Is4() && !ip.IsValid()
+}
+func verif_dec_dhcp4_spoofer_Handler_allocIPOffer_1(lease *Lease) int {
+	return spec_v4(lease.subnet.broadcast) - spec_v4(lease.subnet.nextIP)
+}
+func verif_inv_dhcp4_spoofer_Handler_allocIPOffer_2(h *Handler, lease *Lease, ip netip.Addr) bool {
+	return spec_alloc_ok(h, lease) && (!ip.IsValid())
+}
+func verif_dec_dhcp4_spoofer_Handler_allocIPOffer_2(lease *Lease) int {
+	return spec_v4(lease.subnet.broadcast) - spec_v4(lease.subnet.nextIP)
+}
+
+// allocIPOffer: when it succeeds the offered address is offerable (C11: never the network or
+// broadcast address, never outside the client's subnet, never an address the session tracks for
+// somebody - which includes our own and the router's).
+//
+//verif:props C11
+//verif:timeout 90s
+func verif_contract_dhcp4_spoofer_Handler_allocIPOffer(h *Handler, lease *Lease, reqIP netip.Addr) error {
+	vRequires(spec_alloc_ok(h, lease))
+	if !lease.subnet.nextIP.IsValid() {
+		vTrusted("first allocation from a subnet (scan position still unset): the first search loop then runs on the zero address")
+	}
+	vCanary()
+	vModifiesMems("dhcp4_spoofer.dhcpSubnet", "dhcp4_spoofer.Lease")
+	err := h.allocIPOffer(lease, reqIP)
+	if err == nil {
+		vEnsures(spec_offerable(h, lease.subnet, lease.IPOffer))
+	}
+	vEnsures(spec_subnet_wf(lease.subnet))
+	return err
 }
